@@ -37,20 +37,26 @@ def run(ctx, R, tier):
     hr = ctx.calls_to(f, "Pyro5.server.Daemon.handleRequest")
     cd = ctx.calls_to(f, CD)
     cl = ctx.calls_to(f, CLOSE)
-    if len(hr) != 1 or not cd or not cl:
-        raise AnalysisError("ClientConnectionJob.__call__: handleRequest/_clientDisconnect/close anchors vanished")
+    if len(hr) != 1:
+        raise AnalysisError("ClientConnectionJob.__call__: the handleRequest call vanished")
+    if not cd or not cl:
+        R.fail("C13-R1", "__call__|disconnect-on-every-exit", "the job runs the disconnect handling and closes the connection", f.loc(),
+               "ClientConnectionJob.__call__ no longer calls %s" % ("daemon._clientDisconnect" if not cd else "csock.close"))
+        R.fail("C13-R1", "__call__|close-after-disconnect", "close after disconnect handling", f.loc(), "call missing")
+        R.fail("C13-R1", "__call__|disconnect-contained", "disconnect handling contained", f.loc(), "call missing")
     hn = ctx.node_of(f, hr[0])
-    cdn = [n for c in cd for n in ctx.node_of(f, c)]
-    cln = [n for c in cl for n in ctx.node_of(f, c)]
-    ok = cfg.all_paths_pass(hn, lambda n: n in cdn, edge_ok=xf)
-    R.check(ok, "C13-R1", "__call__|disconnect-on-every-exit", "every path from the request loop to the end of the job passes daemon._clientDisconnect(csock)", f.loc(hr[0]),
-            "a connection can end (e.g. through an exception) without the disconnect handling: the hook is not called and its streams stay bound to it")
-    ok = cfg.all_paths_pass(cdn, lambda n: n in cln, edge_ok=xf)
-    R.check(ok, "C13-R1", "__call__|close-after-disconnect", "after the disconnect handling every path (also when the hook raises) closes the connection", f.loc(cd[0]),
-            "an error in the disconnect handling skips csock.close(): socket, session instances and tracked resources of that connection leak")
-    contained = all(any(part == "body" and any(handler_is_catch_all(h) for h in t.handlers) for t, part in enclosing_trys(c, f.node)) for c in cd)
-    R.check(contained, "C13-R1", "__call__|disconnect-contained", "the disconnect handling runs under its own catch-all", f.loc(cd[0]),
-            "an exception of the user's disconnect hook escapes the cleanup")
+    if cd and cl:
+      cdn = [n for c in cd for n in ctx.node_of(f, c)]
+      cln = [n for c in cl for n in ctx.node_of(f, c)]
+      ok = cfg.all_paths_pass(hn, lambda n: n in cdn, edge_ok=xf)
+      R.check(ok, "C13-R1", "__call__|disconnect-on-every-exit", "every path from the request loop to the end of the job passes daemon._clientDisconnect(csock)", f.loc(hr[0]),
+              "a connection can end (e.g. through an exception) without the disconnect handling: the hook is not called and its streams stay bound to it")
+      ok = cfg.all_paths_pass(cdn, lambda n: n in cln, edge_ok=xf)
+      R.check(ok, "C13-R1", "__call__|close-after-disconnect", "after the disconnect handling every path (also when the hook raises) closes the connection", f.loc(cd[0]),
+              "an error in the disconnect handling skips csock.close(): socket, session instances and tracked resources of that connection leak")
+      contained = all(any(part == "body" and any(handler_is_catch_all(h) for h in t.handlers) for t, part in enclosing_trys(c, f.node)) for c in cd)
+      R.check(contained, "C13-R1", "__call__|disconnect-contained", "the disconnect handling runs under its own catch-all", f.loc(cd[0]),
+              "an exception of the user's disconnect hook escapes the cleanup")
 
     # ---------------------------------------------------------------- R2
     ev = ctx.fn("Pyro5.svr_multiplex.SocketServer_Multiplex.events")
@@ -59,8 +65,8 @@ def run(ctx, R, tier):
     unreg = [c for c, _ in ctx.cg.calls_of(ev) if isinstance(c.func, ast.Attribute) and c.func.attr == "unregister" and "selector" in unparse(c.func.value)]
     cl2 = ctx.calls_to(ev, CLOSE)
     hreq = ctx.calls_to(ev, "Pyro5.svr_multiplex.SocketServer_Multiplex.handleRequest")
-    if not (cd2 and unreg and cl2 and len(hreq) == 1):
-        raise AnalysisError("SocketServer_Multiplex.events: cleanup anchors vanished")
+    if not (cd2 and len(hreq) == 1):
+        raise AnalysisError("SocketServer_Multiplex.events: handleRequest / _clientDisconnect anchors vanished")
     hst = enclosing_stmt(hreq[0])
     act = hst.targets[0].id if isinstance(hst, ast.Assign) and isinstance(hst.targets[0], ast.Name) else None
     if act is None:
@@ -86,7 +92,8 @@ def run(ctx, R, tier):
     tg = [ecfg.exit, ecfg.raise_exit] + loop_heads
     ok = ecfg.all_paths_pass(cd2n, lambda n: n in un, edge_ok=ctx.exc_filter(ev), targets=tg) and \
         ecfg.all_paths_pass(un, lambda n: n in cl2n, edge_ok=ctx.exc_filter(ev), targets=tg)
-    R.check(ok, "C13-R2", "events|disconnect->unregister->close", "after the disconnect handling (also if the hook raises) the connection is unregistered and closed", ev.loc(unreg[0]),
+    ok = ok and bool(un) and bool(cl2n)
+    R.check(ok, "C13-R2", "events|disconnect->unregister->close", "after the disconnect handling (also if the hook raises) the connection is unregistered and closed", ev.loc(cd2[0]),
             "an inactive connection can stay registered with the selector or stay open")
     contained = all(any(part == "body" and any(handler_is_catch_all(h) for h in t.handlers) for t, part in enclosing_trys(c, ev.node)) for c in cd2)
     R.check(contained, "C13-R2", "events|disconnect-contained", "the disconnect handling runs under its own catch-all", ev.loc(cd2[0]),
@@ -168,6 +175,9 @@ def run(ctx, R, tier):
         raise AnalysisError("Daemon.handleRequest: catch-all try vanished")
     H = [x for x in cats[-1].handlers if handler_is_catch_all(x)][0]
     xv = H.name
+    from ..engine.context import locals_assigned
+    cbvars = set(locals_assigned(h, lambda v: isinstance(v, ast.Call) and isinstance(v.func, ast.Name) and v.func.id == "getattr" and len(v.args) >= 2
+                                 and isinstance(v.args[1], ast.Constant) and v.args[1].value == "_pyroCallback"))
     raises = [n for st in H.body for n in walk_no_nested(st) if isinstance(n, ast.Raise) and n.exc is None]
     cases = ["Pyro5.errors.ConnectionClosedError", "Pyro5.errors.TimeoutError", "Pyro5.errors.ProtocolError", "Pyro5.errors.SerializeError",
              "Pyro5.errors.CommunicationError", "Pyro5.errors.SecurityError", "Pyro5.errors.DaemonError", "Pyro5.errors.PyroError",
@@ -182,7 +192,7 @@ def run(ctx, R, tier):
                     if any(x is None for x in cs):
                         return None
                     return any(es.is_sub(cls, x) for x in cs)
-                if isinstance(test, ast.Name) and test.id == "isCallback":
+                if isinstance(test, ast.Name) and test.id in cbvars:
                     return cb
                 fa = flag_test_atom(test)
                 if fa is not None:
